@@ -6,7 +6,7 @@ import pktgen, scen, compare as CMP
 
 class Prop(PropBase):
     pid = 'C14'
-    kernels = ['createTimeUTCWithUs', 'fx_internalProcessPacket']
+    kernels = ['createTimeUTCWithUs', 'fx_internalProcessPacket', 'fx_runPacketCallBack']
     vo_targets = ['Props/Properties_C14.vo', 'Proofs/Record.vo', 'Proofs/Eq_Time.vo', 'Proofs/DispatchCode.vo']
     prop_files = ['Props/Properties_C14.v']
     rule = ('all 17 types, host and LiDAR clock on the recording side, 3 split modes, fixed-offset zones; phase 1: record a session through the packet callback (real driver; decodePacket streams, and loopback UDP with user / tail layers around every datagram) and compare '
